@@ -99,3 +99,321 @@ func sequences(alpha []int, maxLen int) [][]int {
 	return res
 }
 
+
+// ---- batched driver ---------------------------------------------------------
+//
+// Building one Go program per grammar is dominated by the link step.  The
+// sampled cases are therefore processed in batches: one scratch module
+// `module x` holds the output of gocc for every case of the batch in its own
+// sub-directory cK (gocc derives the import paths x/cK/parser, x/cK/token,
+// ... from the position below go.mod), and ONE main package imports the real
+// generated parser of each case.  The binary is then run once per case.
+
+const langBatchSize = 32
+
+const driverHead = `package main
+
+import (
+	"os"
+	"strconv"
+%s)
+
+type entry struct {
+	run   func([]int) byte
+	alpha []int
+}
+
+var entries = map[int]entry{}
+
+func main() {
+	k, err := strconv.Atoi(os.Args[1])
+	if err != nil {
+		os.Exit(3)
+	}
+	e, ok := entries[k]
+	if !ok {
+		os.Exit(3)
+	}
+	maxLen := %d
+	var out []byte
+	prev := [][]int{{}}
+	out = append(out, e.run(nil))
+	for l := 1; l <= maxLen; l++ {
+		var cur [][]int
+		for _, p := range prev {
+			for _, a := range e.alpha {
+				s := append(append([]int{}, p...), a)
+				cur = append(cur, s)
+				out = append(out, e.run(s))
+			}
+		}
+		prev = cur
+	}
+	os.Stdout.Write(out)
+}
+`
+
+const driverCase = `
+type sc%[1]d struct {
+	toks []int
+	i    int
+}
+
+func (s *sc%[1]d) Scan() *t%[1]d.Token {
+	if s.i < len(s.toks) {
+		t := s.toks[s.i]
+		s.i++
+		return &t%[1]d.Token{Type: t%[1]d.Type(t), Lit: []byte("x")}
+	}
+	return &t%[1]d.Token{Type: t%[1]d.EOF, Lit: []byte{}}
+}
+
+func run%[1]d(seq []int) (r byte) {
+	defer func() {
+		if recover() != nil {
+			r = 'P'
+		}
+	}()
+	p := p%[1]d.NewParser()
+	if _, err := p.Parse(&sc%[1]d{toks: seq}); err != nil {
+		return '0'
+	}
+	return '1'
+}
+
+func init() { entries[%[1]d] = entry{run%[1]d, []int{%[2]s}} }
+`
+
+type langItem struct {
+	c     *Case
+	g     *Grammar
+	em    *Emitted
+	alpha []int    // typeMap columns of the ordinary terminals
+	names []string // their names
+	fails []Fail
+	ready bool
+}
+
+func (it *langItem) fail(kind, format string, a ...interface{}) {
+	it.fails = append(it.fails, Fail{ID: it.c.ID, Grammar: it.c.Text, Flags: strings.Join(it.c.Flags, " "),
+		Kind: kind, Msg: fmt.Sprintf(format, a...)})
+}
+
+func driverSource(items []*langItem, ks []int) string {
+	var imports, body strings.Builder
+	for _, k := range ks {
+		fmt.Fprintf(&imports, "\n\tp%[1]d \"x/c%[1]d/parser\"\n\tt%[1]d \"x/c%[1]d/token\"\n", k)
+		var lits []string
+		for _, c := range items[k].alpha {
+			lits = append(lits, fmt.Sprint(c))
+		}
+		fmt.Fprintf(&body, driverCase, k, strings.Join(lits, ", "))
+	}
+	return fmt.Sprintf(driverHead, imports.String(), langMaxLen) + body.String()
+}
+
+func goBuild(dir, out, pkg string) (string, error) {
+	ctx, cancel := context.WithTimeout(context.Background(), 15*time.Minute)
+	defer cancel()
+	build := exec.CommandContext(ctx, "go", "build", "-o", out, pkg)
+	build.Dir = dir
+	build.Env = append(os.Environ(), "GOFLAGS=-mod=mod", "GOPROXY=off")
+	outp, err := build.CombinedOutput()
+	return string(outp), err
+}
+
+// languageBatch runs the language check for a batch of cases and returns the
+// failures.  Every case of the batch was conflict free and passed the table
+// comparison in the first phase; gocc is run again below the batch module and
+// the tables it emits are compared with the reference once more, so that the
+// code that is compiled is known to contain the verified tables.
+func languageBatch(cfg *sweepCfg, cases []*Case) []Fail {
+	items := make([]*langItem, len(cases))
+	for i, c := range cases {
+		items[i] = &langItem{c: c}
+	}
+	collect := func() []Fail {
+		var fs []Fail
+		for _, it := range items {
+			fs = append(fs, it.fails...)
+		}
+		return fs
+	}
+	dir, err := os.MkdirTemp(cfg.tmp, "lrref-lang-")
+	if err != nil {
+		items[0].fail("internal", "cannot create scratch dir: %v", err)
+		return collect()
+	}
+	if !cfg.keep {
+		defer os.RemoveAll(dir)
+	}
+	if err := os.WriteFile(filepath.Join(dir, "go.mod"), []byte("module x\n\ngo 1.24\n"), 0o644); err != nil {
+		items[0].fail("internal", "%v", err)
+		return collect()
+	}
+	var ks []int
+	for k, it := range items {
+		sub := filepath.Join(dir, fmt.Sprintf("c%d", k))
+		if err := os.MkdirAll(sub, 0o755); err != nil {
+			it.fail("internal", "%v", err)
+			continue
+		}
+		if err := os.WriteFile(filepath.Join(sub, "g.bnf"), []byte(it.c.Text), 0o644); err != nil {
+			it.fail("internal", "%v", err)
+			continue
+		}
+		status, _, stderr, timedOut, err := runGocc(cfg, sub, it.c.Flags)
+		if err != nil || timedOut || status != 0 {
+			it.fail("language", "second gocc run (in module sub-directory) failed: status %d timeout %v err %v stderr %q", status, timedOut, err, firstLines(stderr, 3))
+			continue
+		}
+		it.g = it.c.Spec.grammar()
+		em, err := readEmitted(sub)
+		if err != nil {
+			it.fail("readback", "second gocc run: %v", err)
+			continue
+		}
+		if ms := compareTables(it.g, canonicalLR1(it.g), em); len(ms) > 0 {
+			it.fail("nondeterminism", "tables of a second gocc run differ from the reference although the first run matched: %s: %s", ms[0].kind, ms[0].msg)
+			continue
+		}
+		it.em = em
+		for i, n := range em.TypeMap {
+			if i < 2 || n == "error" || n == "empty" {
+				continue
+			}
+			it.alpha = append(it.alpha, i)
+			it.names = append(it.names, n)
+		}
+		// the lexer and util packages are not needed by the driver
+		os.RemoveAll(filepath.Join(sub, "lexer"))
+		os.RemoveAll(filepath.Join(sub, "util"))
+		it.ready = true
+		ks = append(ks, k)
+	}
+	if len(ks) == 0 {
+		return collect()
+	}
+	writeDriver := func(name string, ks []int) error {
+		d := filepath.Join(dir, name)
+		if err := os.MkdirAll(d, 0o755); err != nil {
+			return err
+		}
+		return os.WriteFile(filepath.Join(d, "main.go"), []byte(driverSource(items, ks)), 0o644)
+	}
+	bin := map[int]string{}
+	if err := writeDriver("drv", ks); err != nil {
+		items[ks[0]].fail("internal", "%v", err)
+		return collect()
+	}
+	if _, err := goBuild(dir, "drv.bin", "./drv"); err == nil {
+		for _, k := range ks {
+			bin[k] = filepath.Join(dir, "drv.bin")
+		}
+	} else {
+		// find the culprit(s): build one driver per case
+		for _, k := range ks {
+			name := fmt.Sprintf("drv%d", k)
+			if err := writeDriver(name, []int{k}); err != nil {
+				items[k].fail("internal", "%v", err)
+				continue
+			}
+			if outp, err := goBuild(dir, name+".bin", "./"+name); err != nil {
+				items[k].fail("compile", "generated parser does not build: %v: %s", err, firstLines(outp, 6))
+				continue
+			}
+			bin[k] = filepath.Join(dir, name+".bin")
+		}
+	}
+	for _, k := range ks {
+		if bin[k] == "" {
+			continue
+		}
+		it := items[k]
+		ctx, cancel := context.WithTimeout(context.Background(), 60*time.Second)
+		run := exec.CommandContext(ctx, bin[k], fmt.Sprint(k))
+		run.Dir = dir
+		var so, se bytes.Buffer
+		run.Stdout, run.Stderr = &so, &se
+		err := run.Run()
+		cancel()
+		if err != nil {
+			it.fail("language", "driver failed (a time-out means Parse does not terminate): %v: %s", err, firstLines(se.String(), 6))
+			continue
+		}
+		if msg := compareLanguage(it, so.Bytes()); msg != "" {
+			it.fail("language", "%s", msg)
+		}
+	}
+	return collect()
+}
+
+// compareLanguage compares the driver output with the membership test.
+//
+// For grammars without `error` the comparison is exact (err == nil iff the
+// sequence is in the language, and Parse must not panic).  For grammars with
+// `error` productions the generated parser performs error recovery and may
+// legitimately accept more, so only "in the language => err == nil" is required.
+func compareLanguage(it *langItem, got []byte) string {
+	g := it.g
+	hasError := false
+	refTerm := map[string]int{}
+	for t, n := range g.Terms {
+		refTerm[n] = t
+		if n == "error" {
+			hasError = true
+		}
+	}
+	idx := make([]int, len(it.alpha))
+	for i := range idx {
+		idx[i] = i
+	}
+	seqs := sequences(idx, langMaxLen)
+	if len(got) != len(seqs) {
+		return fmt.Sprintf("driver printed %d results, expected %d", len(got), len(seqs))
+	}
+	bad := 0
+	first := ""
+	for k, s := range seqs {
+		w := make([]int, len(s))
+		var names []string
+		for i, a := range s {
+			names = append(names, it.names[a])
+			if t, ok := refTerm[it.names[a]]; ok {
+				w[i] = t
+			} else {
+				w[i] = -1 // terminal not used by the grammar: never matches
+			}
+		}
+		in := derives(g, w)
+		r := got[k]
+		ok := true
+		switch {
+		case r == 'P' && !hasError:
+			ok = false
+		case in && r != '1':
+			ok = false
+		case !in && r == '1' && !hasError:
+			ok = false
+		}
+		if !ok {
+			bad++
+			if first == "" {
+				first = fmt.Sprintf("input %q: membership test says in-language=%v, generated Parse gave %s",
+					strings.Join(names, " "), in, map[byte]string{'0': "err != nil", '1': "err == nil", 'P': "a panic"}[r])
+			}
+		}
+	}
+	if bad > 0 {
+		return fmt.Sprintf("%s (%d of %d sequences differ)", first, bad, len(seqs))
+	}
+	return ""
+}
+
+func firstLines(s string, n int) string {
+	ls := strings.Split(strings.TrimSpace(s), "\n")
+	if len(ls) > n {
+		ls = ls[:n]
+	}
+	return strings.Join(ls, " | ")
+}
